@@ -326,6 +326,19 @@ def r4(ctx: Ctx) -> None:
             cs = [e for e in calls(p) if calls_target(e, callee)]
             ok = len(cs) == 1 and key(kw(cs[0], arg, 0) or NONE) == "self" and key(strip_ver(cs[0].recv)) == "logger"
             ctx.check(ok, f, f.node, f"{q} hands the record itself to the logger once", f"logger.{callee.split('.')[1]}(log=self)", f"{len(cs)} call(s)")
+    # nobody else empties, rebinds or edits the pending list: a record that was written stays until it is processed
+    nw = 0
+    for wr in ctx.cg.writers_of("Logger", "pending_logs"):
+        nw += 1
+        if wr.kind == "mutcall" and wr.detail in ("append", "extend"):
+            ok = caller_ok(ctx, wr.func, lambda g: g.qualname in ("Logger.write", "Logger.bulk_write"))
+            ctx.check(ok, wr.func, wr.node, "records are added to the pending list by write / bulk_write only", "Logger.write | Logger.bulk_write", wr.func.qualname)
+        elif wr.kind in ("store", "rebind"):
+            ok = caller_ok(ctx, wr.func, lambda g: g.qualname in ("Logger.__init__", "Logger._process"))
+            ctx.check(ok, wr.func, wr.node, "the pending list is started by the constructor and emptied by _process (after it was processed) only", "Logger.__init__ | Logger._process", f"{wr.func.qualname} rebinds it: records still pending are dropped unprocessed")
+        else:
+            ctx.violated(wr.func, wr.node, "pending records are neither removed nor replaced before they are processed", "append / extend / reset after processing", f"{wr.func.qualname}: {wr.kind} {wr.detail}")
+    ctx.require(nw >= 4, "fewer writers of Logger.pending_logs than confirmed by reading")
     f = ctx.func("Logger.process")
     for p in normal_paths(ctx.paths(f.qualname)):
         lp = loops(p)
@@ -473,3 +486,10 @@ def r7(ctx: Ctx) -> None:
                     a = kw(e, "logger")
                     ctx.check(a is not None and key(strip_ver(a)) == "self.logger", f, e.node, f"{q}: {e.name} is created with the runner's logger", "logger=self.logger", short(a))
     ctx.require(m >= 3, "fewer component constructions with a logger than confirmed")
+
+
+@rule("C10.H1", "mechanism shared with C04: an expiry record is written only for an order that is still resting when its lifetime ends: filled and cancelled orders have left the queue and the expiry index", "T4 pairing (same rule as C04.R6)", floor=4)
+def h1(ctx: Ctx) -> None:
+    from .c04 import r6 as removal_rule
+
+    removal_rule(ctx)
